@@ -7,6 +7,9 @@ NT = set("partial-failure-attempt,retry-delay-measured".split(","))
 
 
 class Eng(prod.PRODEngine):
+    MACROS = ["partial", "partial", "partial", "exhaust", "leadermove", "sendduringretry", "sendduringretry", "burst"]
+    MACRO_ONE_IN = 3
+
     def nontrivial(self):
         return bool(self.nt & NT) or bool(NT & self.labels)
 
